@@ -393,10 +393,10 @@ def rule_r3(F, rep):
 
 
 def run(F, rep, tier):
-    rule_r1(F, rep)
-    rule_r2(F, rep)
-    rule_r3(F, rep)
+    rep.attempt(rule_r1, F, rep)
+    rep.attempt(rule_r2, F, rep)
+    rep.attempt(rule_r3, F, rep)
     from . import arity
-    arity.rule_default_env(F, rep, "C09.R4")
+    rep.attempt(arity.rule_default_env, F, rep, "C09.R4")
     rep.assume("agreement of the evaluator's other run-time environments with the same table is not decided")
     return EXPLANATION
